@@ -6,31 +6,29 @@ import "github.com/richardwilkes/toolbox/rate"
 
 // Black-box build (the overlay no longer compiles against the working tree, e.g. because a private identifier was
 // renamed): ticks are observed through the public API only, the `window` area (which has to hold the controller's
-// lock) is skipped.
+// lock) is skipped.  The observation is part of the history the MODEL runs (the check feeds `reset <cap> bb` to the
+// driver, which performs the same calls): a hidden child H of the root with capacity 1 is created at `reset`; for every
+// tick to be observed H gets Use(1) twice (the first is granted when the root has room — it costs the root one unit of
+// that period — the second always has to wait), then SetCap(0): the next tick answers what waits on H with the cap
+// error, charging nothing; afterwards SetCap(1).  H is not among the history's handles and its requests are not
+// printed, but they are numbered like all others.
 const whiteBox = false
 
-// sentinel: a hidden child Y of the root with capacity 0 is created once; for every tick to be observed a child Z of Y
-// with capacity 1 gets Use(1) — within its own cap, but Y never has room, so the request waits and charges nothing —
-// and is closed at once: the next tick (or the final drain) answers the request with the "closed" error.  Y and Z are
-// not among the history's handles; they never carry usage, so neither `used`/`LastUsed` of the limiters under test nor
-// any answer depends on them.  nil = ticks cannot be observed (the line is then inconclusive, never a failure).
-func (h *history) sentinel() <-chan error {
+func (h *history) setup() { h.hidden = h.root.New(1) }
+
+// sentinel: nil = ticks cannot be observed here (root capacity 0: the line is inconclusive, never a failure).
+func (h *history) sentinel() (<-chan error, func()) {
 	if h.hidden == nil {
-		h.hidden = h.root.New(0)
-		if h.hidden == nil {
-			return nil
-		}
+		return nil, nil
 	}
-	z := h.hidden.New(1)
-	if z == nil {
-		return nil
+	h.hidden.Use(1)
+	ch := h.hidden.Use(1)
+	h.nreq += 2
+	h.hidden.SetCap(0)
+	if len(ch) != 0 { // answered at once (no capacity anywhere above H): nothing waits, nothing marks the tick
+		return nil, nil
 	}
-	ch := z.Use(1)
-	z.Close()
-	if len(ch) != 0 { // answered at once: this tree does not let such a request wait
-		return nil
-	}
-	return ch
+	return ch, func() { h.hidden.SetCap(1) }
 }
 
 func lockTree(rate.Limiter)          {}
